@@ -86,6 +86,29 @@ func init() {
 			m.Assume(m.S.And(m.S.Cmp("bvsle", lo, t), m.S.Cmp("bvsle", t, hi)))
 			return t
 		},
+		ZZ + "Time": func(m *Machine, c *frame, fn *ssa.Function, a []Value) Value {
+			name := m.cstr(a[0], "Time")
+			sec := m.nondet("int", name+".sec", 64)
+			nsec := m.nondet("int", name+".nsec", 64)
+			lim := m.S.Const(64, 1<<40)
+			m.Assume(m.S.And(m.S.Cmp("bvsle", m.S.BvNeg(lim), sec), m.S.Cmp("bvsle", sec, lim)))
+			m.Assume(m.S.And(m.S.Cmp("bvsle", m.S.Const(64, 0), nsec), m.S.Cmp("bvslt", nsec, m.S.Const(64, 1000000000))))
+			st := under(fn.Signature.Results().At(0).Type()).(*types.Struct)
+			out := make(StructV, st.NumFields())
+			for i := 0; i < st.NumFields(); i++ {
+				switch st.Field(i).Name() {
+				case "wall":
+					out[i] = nsec
+				case "ext":
+					out[i] = m.S.Bin("bvadd", sec, m.S.Const(64, 62135596800))
+				case "loc":
+					out[i] = PtrV{}
+				default:
+					m.unsupported("time.Time has an unknown field " + st.Field(i).Name())
+				}
+			}
+			return out
+		},
 		ZZ + "Choice": func(m *Machine, c *frame, fn *ssa.Function, a []Value) Value {
 			k := m.choice(m.cstr(a[0], "Choice"), m.cint(a[1], "Choice n"))
 			return m.S.Const(64, uint64(k))
